@@ -14,11 +14,15 @@ import (
 	"strconv"
 	"strings"
 	"testing"
+	"time"
 
+	ssi "github.com/nuts-foundation/go-did"
+	"github.com/nuts-foundation/go-did/did"
 	"github.com/nuts-foundation/nuts-node/audit"
 	"github.com/nuts-foundation/nuts-node/crypto"
 	"github.com/nuts-foundation/nuts-node/crypto/hash"
 	"github.com/nuts-foundation/nuts-node/network/dag"
+	"github.com/nuts-foundation/nuts-node/vdr/didnuts/didstore"
 	"github.com/sirupsen/logrus"
 )
 
@@ -126,6 +130,62 @@ func TestVerifC06Network(t *testing.T) {
 				addU(&phs, c.Sha)
 				emit(map[string]any{"op": "create", "additional": additional, "call": c}, "r=ok created=match | "+obs())
 				present = append(present, info{ref: c.Jws["ref"].(string), lc: int(tx.Clock()), payload: true})
+			case k == 5 && len(present) > 0: // a transaction signed with a key that a DID document in the REAL did store holds as of a prev
+				src := present[rnd.Intn(len(present))]
+				other := present[rnd.Intn(len(present))]
+				signer := rnd.Intn(3)
+				docDID := did.MustParseDID("did:nuts:verif" + strconv.Itoa(inst) + "x" + strconv.Itoa(s))
+				vmID := did.MustParseDIDURL(docDID.String() + "#k" + strconv.Itoa(signer))
+				vm, err := did.NewVerificationMethod(vmID, ssi.JsonWebKey2020, docDID, b.PublicKey(signer))
+				if err != nil {
+					t.Fatal(err)
+				}
+				doc := did.Document{ID: docDID}
+				doc.AddCapabilityInvocation(vm)
+				srcH, _ := hash.ParseHex(src.ref)
+				docJSON, _ := json.Marshal(doc)
+				if err := n.didStore.Add(doc, didstore.Transaction{Ref: srcH, Clock: uint32(src.lc), SigningTime: time.Now(), PayloadHash: hash.SHA256Sum(docJSON)}); err != nil {
+					t.Fatal(err)
+				}
+				emit(map[string]any{"op": "doc", "did": docDID.String(), "src": src.ref, "doc": map[string]any{"res": "doc", "vms": [][]any{{vmID.String(), signer}}}}, "doc")
+				prevs, kidS, sg, note := []string{src.ref}, vmID.String(), signer, "foreign:kid-valid"
+				switch rnd.Intn(5) {
+				case 0:
+					prevs, note = []string{other.ref, src.ref}, "foreign:kid-via-later-prev"
+				case 1:
+					if other.ref != src.ref {
+						prevs, note = []string{other.ref}, "foreign:kid-document-not-as-of-prevs"
+					}
+				case 2:
+					sg, note = (signer+1)%3, "foreign:kid-signed-by-other-key"
+				case 3:
+					kidS, note = docDID.String()+"#nope", "foreign:kid-not-in-document"
+				}
+				hi := -1
+				for _, p := range prevs {
+					for _, q := range present {
+						if q.ref == p && q.lc > hi {
+							hi = q.lc
+						}
+					}
+				}
+				pid := b.NewPid()
+				c := b.TxKid(prevs, strconv.Itoa(hi+1), sg, kidS, pid, note)
+				addU(&refs, c.Jws["ref"].(string))
+				for _, p := range c.Phs {
+					addU(&phs, strings.ToLower(p))
+				}
+				tx, perr := dag.ParseTransaction(dag.VerifC06Input(c))
+				res := ""
+				if perr != nil {
+					res = dag.VerifC06ParseClass(perr)
+				} else {
+					res = dag.VerifC06AddClass(n.state.Add(context.Background(), tx, dag.VerifC06Payload(c.Pid)))
+				}
+				emit(map[string]any{"op": "add", "call": c}, "r="+res+" | "+obs())
+				if isPresent(c.Jws["ref"].(string)) {
+					present = append(present, info{ref: c.Jws["ref"].(string), lc: hi + 1, payload: true})
+				}
 			default: // a transaction arrives from elsewhere: valid or defective, offered to the wired state
 				var prevs []string
 				hi := -1
